@@ -46,6 +46,8 @@ def jobs(tier):
             out.append(("create.%s.mixedcase2" % which, "job_create", dict(which=which, shape="mixedcase2", K=2, edits=0, mode="sizes")))
     for version in (1, 3):
         out.append(("edit-foreign-layout.v%d" % version, "job_edit_foreign", dict(version=version)))
+    for which in ("1", "2a", "3a") + (() if q else ("2c", "3c")):
+        out.append(("create-unencodable.%s" % which, "job_create_unencodable", dict(which=which, unenc=True)))
     for version in (2, 3):
         out.append(("edit-mixed-keys.v%d" % version, "job_edit_mixed", dict(version=version, mixed=True)))
     for shape in ("flat2", "nested3"):
@@ -347,6 +349,40 @@ def _mixed_base(version, conc=False):
     return {"announce": "http://t/a", "info": dict(sorted(info.items())), "piece layers": layers}
 
 
+def job_create_unencodable(E, which, unenc=True, _mutants=None):
+    """A create that cannot be encoded (a value bencode has no representation for): whatever is at the output path
+    afterwards is a complete metafile - the one that was there before, or nothing if there was none."""
+    P = 16384
+    fs, sizes = cr.make_fs(E, "flat2", 1, P, order="reversed")
+    E.assume(disj(*[s > 0 for s in sizes.values()]))
+    fs.mkdirs("/out")
+    pre = E.choice("outfile-exists", 2)
+    old = {"announce": "http://old/a", "info": {"length": 1, "name": "old", "piece length": P, "pieces": ABuf(b"x" * 20)}}
+    if pre:
+        fs.add_token("/out/x.torrent", BenTok(old))
+    where = ["comment", "source", "announce"][E.choice("bad-field", 3)]
+    kw = {where: 1.5} if where != "announce" else {"announce": ["http://t/a", 2.5]}
+    w = World(fs, mutants=_mutants)
+    raised = None
+    try:
+        t = cr.create(w, which, path="/data/name", piece_length=P, progress=0, outfile="/out/x.torrent", **kw)
+        t.write()
+    except Unsupported:
+        raise
+    except Exception as ex:  # noqa: BLE001
+        raised = type(ex).__name__
+    got = ew.file_obj(fs, "/out/x.torrent")
+    if pre:
+        E.check(isinstance(got, dict), "C06.failed-create.complete", "after a create that raised %s the output path holds %r" % (raised, got if not isinstance(got, dict) else "a metafile"))
+    else:
+        E.check(isinstance(got, dict) or got == ("MISSING",), "C06.failed-create.complete",
+                "after a create that raised %s the (new) output path holds %r" % (raised, got))
+    if isinstance(got, dict):
+        check_canonical(E, {k: v for k, v in got.items()}, "C06.failed-create") if raised is None else None
+    for k in WITNESSES:
+        E.witnesses.setdefault(k, True)
+
+
 def job_edit_mixed(E, version, mixed=True, _mutants=None):
     """Keys a decoder returns with mixed types (a pieces root that happens to be valid UTF-8 comes back as text, the
     others as bytes): the written file must still have them in raw byte order."""
@@ -493,6 +529,30 @@ def replay(params, model, notes, workdir, seed):
             if bad:
                 return bad
         return bad
+    if params.get("unenc"):
+        which = params["which"]
+        root, data = cr.materialize(workdir, "flat2", cr.concrete_sizes("flat2", model), seed)
+        out = os.path.join(workdir, "x.torrent")
+        pre = int(model.get("outfile-exists", 0))
+        old = refconc.bencode({"announce": "http://old/a", "info": {"length": 1, "name": "old", "piece length": 16384, "pieces": b"x" * 20}})
+        if pre:
+            with open(out, "wb") as f:
+                f.write(old)
+        where = ["comment", "source", "announce"][int(model.get("bad-field", 0))]
+        kw = {where: 1.5} if where != "announce" else {"announce": ["http://t/a", 2.5]}
+        try:
+            with contextlib.redirect_stdout(io.StringIO()):
+                t = cr.real_create(which, path=root, piece_length=16384, outfile=out, **kw)
+                t.write()
+        except Exception:  # noqa: BLE001
+            pass
+        if not os.path.exists(out):
+            return [] if not pre else ["C06.failed-create.complete (output removed)"]
+        try:
+            refconc.bdecode_strict(open(out, "rb").read())
+        except refconc.BencodeError as ex:
+            return ["C06.failed-create.complete (%s)" % ex]
+        return []
     if params.get("mixed"):
         from harness import c07 as _c07
         version = params["version"]
